@@ -258,6 +258,35 @@ func (ev *evaluator) eval(fr *evalFrame, v ssa.Value, depth int) (interface{}, b
 		if x.Op == token.MUL {
 			// a load from a literal package-level table (never written after init: C09 R09.1)
 			switch addr := x.X.(type) {
+			case *ssa.FreeVar:
+				// a variable captured by a closure: the cell the enclosing function bound, holding what it stored there once
+				if fr.call != nil && fr.parent != nil {
+					if mc, ok := fr.call.Common().Value.(*ssa.MakeClosure); ok {
+						for i, fv := range fr.fn.FreeVars {
+							if fv != addr || i >= len(mc.Bindings) {
+								continue
+							}
+							cell, ok := mc.Bindings[i].(*ssa.Alloc)
+							if !ok || cell.Parent() == nil {
+								return nil, false
+							}
+							var stored ssa.Value
+							cnt := 0
+							for _, b := range cell.Parent().Blocks {
+								for _, ins := range b.Instrs {
+									if st, ok := ins.(*ssa.Store); ok && st.Addr == ssa.Value(cell) {
+										stored = st.Val
+										cnt++
+									}
+								}
+							}
+							if cnt == 1 {
+								return ev.eval(fr.parent, stored, depth+1)
+							}
+						}
+					}
+				}
+				return nil, false
 			case *ssa.FieldAddr:
 				// a field of an object this activation allocated holds what was (once) stored into it
 				if al, ok := addr.X.(*ssa.Alloc); ok && al.Parent() != nil {
